@@ -196,3 +196,24 @@ M("c09-conv-guard-order", "C09", "esf/conv.py", "    # empty domain?\n    if x >
 M("c09-new-unguarded-closure", "C09", CFD + "heavy/f2_nc.py", "class SingletAA(pc.NeutralCurrentBase):\n    \"\"\"Axial-vector-axial-vector singlet component.\"\"\"\n", "class SingletAA(pc.NeutralCurrentBase):\n    \"\"\"Axial-vector-axial-vector singlet component.\"\"\"\n\n    def NLO(self):\n        def cq(z, _args):\n            return self._FHprefactor / z * LeProHQ.cq1(\"F2\", \"AA\", self._xi, self._eta(z))\n\n        return RSL(cq)\n", expect="SingletAA.NLO")
 B("c09-not-gt", "C09", HPF, "        return shat <= 4 * self.m2hq", "        return not shat > 4 * self.m2hq")
 B("c09-rename-eta", "C09", HPF, "        self._eta = lambda z: self._xi / 4.0 * (1.0 / z - 1.0) - 1.0", "        self._eta = lambda zz: self._xi / 4.0 * (1.0 / zz - 1.0) - 1.0")
+
+# ----------------------------------------------------------------------------- C01
+CVF = "esf/conv.py"
+M("c01-drop-local", "C01", CVF, "    res += pdf_at_x * local_at_x\n", "", expect="C01.integrand")
+M("c01-loc-args-sing", "C01", CVF, '        local_at_x = rsl.loc(x, rsl.args["loc"])', '        local_at_x = rsl.loc(x, rsl.args["sing"])', expect="C01.integrand")
+M("c01-pack-swap", "C01", CVF, "            sing_args = (\n                rsl.sing,\n                pdf_at_x,\n                rsl.args[\"sing\"],\n            )", "            sing_args = (\n                rsl.sing,\n                rsl.args[\"sing\"],\n                pdf_at_x,\n            )", expect="C01.integrand")
+M("c01-breakpoints", "C01", CVF, "        breakpoints = x / area_borders", "        breakpoints = area_borders / x", expect="C01.integrand")
+M("c01-zmax", "C01", CVF, "        z_max = min(max(breakpoints), 1)", "        z_max = max(breakpoints)", expect="C01.integrand")
+M("c01-no-subtraction", "C01", CVF, "def quad_ker_sing(z, x, is_log, areas, sing, pdf_at_x, sing_args):\n    if is_log:\n        pdf_at_x_ov_z_div_z = interpolation.log_evaluate_x(x / z, areas) / z\n    else:\n        pdf_at_x_ov_z_div_z = interpolation.evaluate_x(x / z, areas) / z\n    # compute\n    sing_integrand = sing(z, sing_args) * (pdf_at_x_ov_z_div_z - pdf_at_x)", "def quad_ker_sing(z, x, is_log, areas, sing, pdf_at_x, sing_args):\n    if is_log:\n        pdf_at_x_ov_z_div_z = interpolation.log_evaluate_x(x / z, areas) / z\n    else:\n        pdf_at_x_ov_z_div_z = interpolation.evaluate_x(x / z, areas) / z\n    # compute\n    sing_integrand = sing(z, sing_args) * (pdf_at_x_ov_z_div_z)", expect="C01.integrand")
+M("c01-missing-jacobian", "C01", CVF, "def quad_ker_reg(z, x, is_log, areas, reg, reg_args):\n    if is_log:\n        pdf_at_x_ov_z_div_z = interpolation.log_evaluate_x(x / z, areas) / z", "def quad_ker_reg(z, x, is_log, areas, reg, reg_args):\n    if is_log:\n        pdf_at_x_ov_z_div_z = interpolation.log_evaluate_x(x / z, areas)", expect="C01.integrand")
+M("c01-log-borders", "C01", CVF, "        if pdf_func._mode_log:  # pylint: disable=protected-access\n            area_borders = np.exp(area_borders)\n", "", expect="C01.integrand")
+M("c01-kernel-choice", "C01", CVF, "        if rsl.reg is not None and rsl.sing is not None:\n            quad_ker = quad_ker_reg_sing", "        if rsl.reg is not None and rsl.sing is not None:\n            quad_ker = quad_ker_sing", expect="C01.integrand")
+M("c01-point-x", "C01", "esf/esf.py", "                    rsl, self.info.configs.managers[\"interpolator\"], convolution_point\n", "                    rsl, self.info.configs.managers[\"interpolator\"], self.x\n", expect="C01.point")
+M("c01-factor-val-only", "C01", "esf/esf.py", "                val, err = convolution_point * val, convolution_point * err", "                val, err = self.x * val, convolution_point * err", expect="C01.point")
+M("c01-no-factor-x", "C01", "esf/esf.py", "                val, err = convolution_point * val, convolution_point * err\n", "", expect="C01.point")
+M("c01-vector-skip-first", "C01", CVF, "    for polynomial_f in interpolator:\n        c, e = convolution(cf, convolution_point, polynomial_f)", "    for polynomial_f in list(interpolator)[1:]:\n        c, e = convolution(cf, convolution_point, polynomial_f)", expect="C01")
+M("c01-operator-transposed", "C01", CVF, "            op_res[l, k] = res\n            op_err[l, k] = err", "            op_res[k, l] = res\n            op_err[k, l] = err", expect="C01.vector")
+M("c01-err-val-swap", "C01", CVF, "        ls.append(c)\n        els.append(e)", "        ls.append(e)\n        els.append(c)", expect="C01")
+M("c01-intrinsic-point", "C01", CFD + "intrinsic/partonic_channel.py", "        return self.x / self.eta", "        return self.x", expect=None)
+B("c01-inplace-factor", "C01", "esf/esf.py", "                val, err = convolution_point * val, convolution_point * err", "                val = val * convolution_point\n                err = err * convolution_point")
+B("c01-rename-quad-args", "C01", CVF, "            quad_args = (*quad_args, *reg_args)\n            quad_ker = quad_ker_reg", "            quad_args = quad_args + reg_args\n            quad_ker = quad_ker_reg")
